@@ -90,6 +90,27 @@ PROPS = {
             "`&f64 == &f64` has no Verus specification: the float-float arm rests on the K harness c19_float_eq alone",
             "hidden element types in the bounded array harness are drawn from {!, int, any}",
         ]),
+    "C13": dict(
+        probes=["cells", "cells_random"],
+        explanation="update kernel of C13 proved on the verbatim bodies (V): `mut e` yields a cell holding the value of e "
+                    "(Mut::exec), `*c` yields the current content (indirection::exec), every `op=` is dispatched to "
+                    "assign::exec / try_exec with the operator function of `op` (BinOperation::exec), and those two functions "
+                    "read the content at the moment of the update, store the operator's result, yield the stored value, and "
+                    "store nothing before the operator has succeeded (proof-only assertions bracketing the update, "
+                    "against a model of RwLock). Aliasing (Arc), freshness of cells and the typing rule for cell contents "
+                    "are NOT under contract: bounded probes (fixed scenarios, REPL-style error-path sequences, random "
+                    "aliasing programs against a reference heap).",
+        assumptions=COMMON + MACHINE + [
+            "model of std::sync::RwLock<Variable>: write()/read() never poisoned, the guard dereferences to the content at lock "
+            "time, and what the guard holds when it is dropped is the new content (the drop itself is not modelled: `stores` "
+            "clauses are assertions about the guard at the function's exit points)",
+            "`c = v` (plain assignment) passes the un-annotated closure `|_, b| b` to assign::exec: that it yields v is "
+            "inspected, not proved (Verus gives un-annotated closures no callable spec); bounded probes",
+            "aliasing of cells is Arc sharing (Rust semantics), freshness is `Arc::new` per evaluation of Mut::exec: not "
+            "expressible as a contract on one call; bounded probes",
+            "the typing rule (content of a `mut T` cell stays a T: assign::can_be_used, invariance of mut in Type::matches) "
+            "lives in the checker over HashSet-based types: outside both verifiers; `must be rejected` probes only",
+        ]),
 }
 
 # Obligations that are SUFFICIENT for a property but not NECESSARY ("the optimizer does nothing else", "the fold function
@@ -144,4 +165,6 @@ def probe_family_of(prop, oid):
         return "control"
     if prop == "C19":
         return "eq_array" if "array" in oid else "eq"
+    if prop == "C13":
+        return "cells"
     return None
